@@ -6,6 +6,7 @@ from pgverif import models as M
 from pgverif.gen import desc as D
 from pgverif.gen import history as H
 from pgverif.gen import ops as O
+from pgverif.gen import values as V
 from pgverif.monitors import derived as DV
 from pgverif.monitors import schema as SM
 from pgverif.monitors import tree as TM
@@ -36,10 +37,29 @@ RULE = ('case = one symbolic value (typed/untyped x sealed x partial x accessor 
         'of its arguments; observed on the other copy: JSON, metadata, userdata, what ITS '
         'next clone carries; argument sets, is_fully_bound and the call result; a DNASpec a '
         'history of set_userdata on its decision points (observed: JSON, userdata). Such a '
-        'case is non-trivial when at least 3 state operations were applied.')
+        'case is non-trivial when at least 3 state operations were applied. '
+        'Values also comprise pg.List / pg.Dict bound to a value spec of their OWN '
+        '(allow_partial either way, content partial or not) as the root of the clone, '
+        'inside an untyped container or an untyped object field; clones are taken inside '
+        '0-2 scoped overrides (as_sealed / allow_partial / allow_writable_accessors / '
+        'notify_on_change) and the per-node flags are read after leaving them (key of a '
+        'difference: which scope overrides that flag with another value, and below what '
+        'kind of node the container gets its schema binding). Tuple-valued members '
+        '(in untyped dicts / lists / object fields and in T.Tuple fields) hold symbolic '
+        'values, plain lists / dicts (holding symbolic values again), leaf objects, '
+        'frozensets of leaf objects and nested tuples: for a deep clone every mutable object '
+        'reachable through them must be a copy, the symbolic values in there are compared '
+        'node by node like the tree itself (class, flags, spec, tree_ok) and take part in '
+        'the post-clone history (pg operations on them, append / item assignment on the '
+        'plain containers, attribute writes on leaf objects, also on leaf objects stored '
+        'directly in the tree). A shallow clone shares leaf values, so nothing inside a '
+        'tuple is mutated after a shallow clone.')
 REQUIRED_COUNTERS = ['clones_checked', 'flag_nodes_compared', 'interference_checks',
                      'identity_nodes_compared', 'primed_clones', 'getter_identity_checks',
-                     'derived_interference_checks', 'state_interference_checks']
+                     'derived_interference_checks', 'state_interference_checks',
+                     'scope_flag_nodes_compared', 'clones_of_own_spec_containers',
+                     'in_tuple_identity_checks', 'in_tuple_trees_compared',
+                     'in_tuple_node_mutations', 'plain_member_mutations']
 ASSUMPTIONS = [
     'values held through pg.Ref are deliberately shared and excluded from the disjointness rule',
     'the observation of the untouched side for non-interference: to_json_str, format(), the '
@@ -50,6 +70,12 @@ ASSUMPTIONS = [
     'by a clone; equality of a DNA clone is therefore judged on value and children when the '
     'source holds non-cloneable metadata. A key is never set with cloneable=False on a copy '
     'on which it is cloneable (left open by the documentation)',
+    'a tuple (frozenset) stored in a symbolic value is one non-symbolic leaf value: a deep '
+    'clone copies it with everything mutable it holds (as it copies any leaf object), a '
+    'shallow clone may share it; the symbolic values inside are roots of trees of their own',
+    'a typed container is stored in an object field under the partial policy of the object '
+    '(Any2.partial(x=<allow_partial=True list>)): storing it under another policy re-applies '
+    'the container, which is C03 matter',
 ]
 
 DEEP_VIAS = [('clone', lambda v: v.clone(deep=True)),
@@ -100,6 +126,155 @@ def special_value(rng):
   return 'functor[]', M.add_fn()
 
 
+T = pg.typing
+
+
+class TupleHolder(pg.Object):
+  """Object with tuple-typed fields (pyglove keeps a tuple as one leaf value:
+  what is inside it is not converted and gets no parent)."""
+  t: T.Tuple(T.Any()).noneable() = None
+  ft: T.Tuple([T.Any(), T.Object(M.Inner)]).noneable() = None
+  a: T.Any() = None
+
+
+TUPLE_ITEM_CLASSES = ('Any2', 'Writable', 'Notifier')
+
+
+def tuple_value(rng, depth=2):
+  """(printable, tuple) holding symbolic nodes, plain lists / dicts (which may
+  hold symbolic nodes again), Leaf objects, frozensets of Leaf objects, nested
+  tuples and primitives; at least one member is mutable."""
+  shown, items = [], []
+  for _ in range(rng.randint(1, 4)):
+    q = rng.random()
+    if q < 0.3:
+      d = D.gen(rng, 2, classes=TUPLE_ITEM_CLASSES, symbolic=True)
+    elif q < 0.5:
+      d = D.gen(rng, 2, classes=TUPLE_ITEM_CLASSES, symbolic=None)
+      if d[0] not in ('d', 'l'):
+        d = ['l', [d]]
+    elif q < 0.62:
+      d = ['leaf', rng.randint(0, 3)]
+    elif q < 0.68:
+      items.append(frozenset(M.Leaf(n) for n in rng.sample(range(4), rng.randint(1, 2))))
+      shown.append(repr(items[-1]))
+      continue
+    elif q < 0.85 and depth > 0:
+      sh, v = tuple_value(rng, depth - 1)
+      shown.append(sh)
+      items.append(v)
+      continue
+    else:
+      d = ['v', V.small_prim(rng)]
+    shown.append(D.show(d))
+    items.append(D.build(d))
+  if not any(is_mutable(o) for o, _, _, _, _, _ in walk_all(tuple(items))[1:]):
+    d = rng.choice([['D', [['a', ['v', 1]]]], ['L', [['v', 1]]], ['l', [['leaf', 1]]],
+                    ['O', 'Any2', [['x', ['L', [['v', 0]]]]]]])
+    shown.append(D.show(d))
+    items.append(D.build(d))
+  return '(%s,)' % ', '.join(shown), tuple(items)
+
+
+def tuple_holder(rng):
+  kw, shown = {}, []
+  if rng.random() < 0.7:
+    sh, kw['t'] = tuple_value(rng)
+    shown.append(f't={sh}')
+  if rng.random() < 0.5:
+    d = D.gen(rng, 2, classes=TUPLE_ITEM_CLASSES, symbolic=None)
+    kw['ft'] = (D.build(d), V.object_of(M.Inner, rng))
+    shown.append(f'ft=({D.show(d)}, Inner(...))')
+  if rng.random() < 0.4 or not kw:
+    sh, kw['a'] = tuple_value(rng, 1)
+    shown.append(f'a={sh}')
+  return 'TupleHolder(%s)' % ', '.join(shown), TupleHolder(**kw)
+
+
+def inject_tuples(rng, nodes):
+  """Stores tuple-valued members in untyped nodes of the value. Returns a label."""
+  targets = [n for n in nodes if (isinstance(n, (pg.Dict, pg.List)) and n.value_spec is None)
+             or type(n) in (M.Any2, M.Writable, M.Notifier, M.Bound, M.NoSymCmp)]
+  out = []
+  for tgt in rng.sample(targets, min(len(targets), rng.randint(1, 3))):
+    if rng.random() < 0.2:
+      sh, tv = tuple_holder(rng)
+    else:
+      sh, tv = tuple_value(rng)
+    with pg.allow_writable_accessors(True):
+      if isinstance(tgt, pg.Dict):
+        tgt[rng.choice(['tup', 't2', 'a'])] = tv
+      elif isinstance(tgt, pg.List):
+        tgt.insert(rng.randint(0, len(tgt)), tv)
+      else:
+        tgt.rebind({rng.choice(['x', 'y']) if 'y' in tgt.sym_init_args else 'x': tv})
+    out.append(f'{kind(tgt)}<-{sh}')
+  return '+tuples[' + '; '.join(out)[:400] + ']' if out else ''
+
+
+ROOT_SPECS = [
+    ('List(Int)', lambda: T.List(T.Int(min_value=0, max_value=9), max_size=6)),
+    ('List(Object(Inner))', lambda: T.List(T.Object(M.Inner), max_size=5)),
+    ('List(Object(Required))', lambda: T.List(T.Object(M.Required), max_size=4)),
+    ('List(Dict)', lambda: T.List(T.Dict([('a', T.Int()), ('b', T.Int(default=2))]), max_size=4)),
+    ('List(List(Int))', lambda: T.List(T.List(T.Int(), max_size=3), max_size=3)),
+    ('List(Any)', lambda: T.List(T.Any(), max_size=6)),
+    ('Dict(fixed)', lambda: T.Dict([('a', T.Int()), ('b', T.Int(default=2)),
+                                    ('c', T.List(T.Int(), max_size=3, default=[0]))])),
+    ('Dict(StrKey)', lambda: T.Dict([(T.StrKey(), T.Int(min_value=0))])),
+    ('Dict(nested)', lambda: T.Dict([('o', T.Object(M.Required).noneable()),
+                                     ('n', T.Dict([('p', T.Int()), ('q', T.Str(default='a'))])),
+                                     ('l', T.List(T.Object(M.Inner), max_size=3, default=[]))])),
+]
+
+
+def partialize(v, rng):
+  """Removes required parts of a plain value built for one of ROOT_SPECS."""
+  if isinstance(v, M.Required):
+    return M.Required.partial(**rng.choice([{}, {'r': 1}, {'rs': 'a'}]))
+  if isinstance(v, list):
+    return [partialize(x, rng) if rng.random() < 0.6 else x for x in v]
+  if isinstance(v, dict):
+    out = {k: partialize(x, rng) for k, x in v.items()}
+    for k in ('a', 'p'):
+      if k in out and rng.random() < 0.6:
+        del out[k]
+    return out
+  return v
+
+
+def typed_container(rng):
+  """A pg.List / pg.Dict bound to a value spec of its own (allow_partial either
+  way, content partial or not), as the root or inside an untyped container /
+  an untyped object field."""
+  for _ in range(10):
+    name, mk = rng.choice(ROOT_SPECS)
+    spec = mk()
+    ap = rng.random() < 0.5
+    content = V.value_for(spec, rng, valid=True)
+    if ap and rng.random() < 0.5:
+      content = partialize(content, rng)
+    ctor = pg.List if isinstance(spec, T.List) else pg.Dict
+    try:
+      v = ctor(content, value_spec=spec, allow_partial=ap)
+      label = f'pg.{ctor.__name__}({v.format(compact=True)[:200]}, value_spec={name}, allow_partial={ap})'
+      w = rng.random()
+      if w < 0.5:
+        return label, v
+      if w < 0.7:
+        return f'pg.Dict(n={label}, k=1)', pg.Dict(n=v, k=1)
+      if w < 0.85:
+        return f'pg.List([{label}, 2])', pg.List([v, 2])
+      # (the object gets the partial policy of the container: storing a typed
+      # container under a different policy re-applies it, which is C03 matter)
+      if ap:
+        return f'Any2.partial(x={label})', M.Any2.partial(x=v)
+      return f'Any2(x={label})', M.Any2(x=v)
+    except (TypeError, ValueError, KeyError):
+      continue
+  return 'pg.List([1], value_spec=List(Int))', pg.List([1], value_spec=T.List(T.Int()))
+
+
 def make_value(rng):
   """Returns (label, value)."""
   r = rng.random()
@@ -116,11 +291,18 @@ def make_value(rng):
       return f'Required.partial({kw})[complete]', M.Required.partial(**kw)
     kw = {'r': 1} if q < 0.7 else {}
     return f'Required.partial({kw})', M.Required.partial(**kw)
-  descs, forest = H.make_forest(rng, n_roots=1, typed=rng.random() < 0.6, depth=3,
-                                classes=('Any2', 'Writable', 'Notifier', 'Bound', 'NoSymCmp'))
-  v = forest[0]
-  label = D.show(descs[0])
-  nodes = [n for _, _, n in H.all_nodes(forest)]
+  if r < 0.34:
+    label, v = typed_container(rng)
+  elif r < 0.39:
+    label, v = tuple_holder(rng)
+  else:
+    descs, forest = H.make_forest(rng, n_roots=1, typed=rng.random() < 0.6, depth=3,
+                                  classes=('Any2', 'Writable', 'Notifier', 'Bound', 'NoSymCmp'))
+    v = forest[0]
+    label = D.show(descs[0])
+  nodes = [n for n, _ in TM.nodes_of(v) if not isinstance(n, pg.Ref)]
+  if rng.random() < 0.3:
+    label += inject_tuples(rng, nodes)
   if rng.random() < 0.25:
     # a reference to an external node and to a non-symbolic leaf
     ext = pg.Dict(shared=pg.List([1, 2]))
@@ -145,29 +327,135 @@ def make_value(rng):
   return label, v
 
 
+# ---------------------------------------------------------------------------
+# What a value holds beyond its own tree: a tuple (set, frozenset) is one leaf
+# value for pyglove; the symbolic values, plain lists / dicts and leaf objects
+# inside it are reachable from the value all the same.
+
+PLAIN = (tuple, list, dict, set, frozenset)
+
+
+def is_mutable(o):
+  return isinstance(o, (pg.Symbolic, M.Leaf, list, dict, set))
+
+
+def plain_items(v):
+  if isinstance(v, (tuple, list)):
+    return list(enumerate(v))
+  if isinstance(v, dict):
+    return list(v.items())
+  return [('*', x) for x in sorted(v, key=repr)]
+
+
+def walk_all(root):
+  """[(object, where, holder, inside, top, unordered)] of everything reachable
+  from root (pg.Ref not entered): the nodes of its tree, their non-symbolic
+  members and, through tuples / plain containers, whatever those hold.
+
+  holder = kind of the tree node that stores the outermost plain container,
+  inside = reached through a plain container, top = symbolic value stored
+  directly in a plain container (the root of a tree of its own), unordered =
+  reached through a set."""
+  out = []
+  entered = set()
+
+  def go(v, where, holder, inside, in_plain, unordered):
+    if isinstance(v, pg.Symbolic):
+      if id(v) in entered:
+        return
+      entered.add(id(v))
+      out.append((v, where, holder, inside, in_plain, unordered))
+      if isinstance(v, pg.Ref):
+        return
+      for k, c in TM.children(v):
+        go(c, where + [k], holder if inside else kind(v), inside, False, unordered)
+    elif isinstance(v, M.Leaf):
+      out.append((v, where, holder, inside, False, unordered))
+    elif isinstance(v, PLAIN):
+      if id(v) in entered:
+        return
+      entered.add(id(v))
+      out.append((v, where, holder, True, False, unordered))
+      uo = unordered or isinstance(v, (set, frozenset))
+      for k, m in plain_items(v):
+        go(m, where + [k], holder, True, True, uo)
+
+  go(root, [], None, False, False, False)
+  return out
+
+
+def in_tuple_tops(root):
+  """Symbolic values stored directly in a tuple / plain container of root."""
+  return [(o, where, holder) for o, where, holder, inside, top, _ in walk_all(root)
+          if top and isinstance(o, pg.Symbolic) and not isinstance(o, pg.Ref)]
+
+
 FLAGS = [('allow_partial', lambda n: n.allow_partial),
          ('is_sealed', lambda n: n.is_sealed),
          ('accessor_writable', lambda n: n.accessor_writable)]
 
 
-def compare_nodes(ctx, a, c, deep, via, label, witness):
-  """Parallel walk of original and clone."""
+SCOPE_OF_FLAG = {'allow_partial': 'allow_partial', 'is_sealed': 'as_sealed',
+                 'accessor_writable': 'allow_writable_accessors'}
+
+
+def position(x, top_pos):
+  """Where a node of the original sits (harness fact used in the keys of flag
+  differences of clones taken inside scopes): below which kind of node its
+  schema binding comes from. Typed dicts that are themselves members of a
+  typed parent are passed through (`Typed.d.sub` counts as nested in the
+  object), so the answer is the nearest ancestor that is an object, a typed
+  list, a typed dict owning its spec, or an untyped container."""
+  p = x.sym_parent
+
+  def typed(n):
+    return isinstance(n, pg.Object) or (
+        isinstance(n, (pg.Dict, pg.List)) and n.value_spec is not None)
+
+  while (isinstance(p, pg.Dict) and p.value_spec is not None
+         and p.sym_parent is not None and typed(p.sym_parent)):
+    p = p.sym_parent
+  if p is None:
+    return top_pos
+  if isinstance(p, pg.Object):
+    return 'nested-in-object'
+  if not typed(p):
+    return 'nested-in-untyped'
+  return f'nested-in-typed-{kind(p)}'
+
+
+def scope_tag(ctx, fname, x, orig, top_pos):
+  """'' for a clone taken outside any scope; otherwise '@<which scope>/<position>':
+  the scope that overrides this very flag with a value different from the
+  node's own one, or 'other-scope'."""
+  scopes = getattr(ctx, 'clone_scopes', None)
+  if not scopes:
+    return ''
+  name = SCOPE_OF_FLAG[fname]
+  which = f'{name}-scope' if name in scopes and scopes[name] != orig else 'other-scope'
+  return f'@{which}/{position(x, top_pos)}'
+
+
+def compare_nodes(ctx, a, c, deep, via, label, witness, ids_a=None, top_pos='root'):
+  """Parallel walk of original and clone (one tree)."""
   cnt = ctx.counters
   an, cn = TM.nodes_of(a), TM.nodes_of(c)
   mode = 'deep' if deep else 'shallow'
+  sfx = '' if top_pos == 'root' else '/' + top_pos
   if [k for _, k in an] != [k for _, k in cn]:
-    ctx.violation('structure-differs', f'{mode}/{kind(a)}',
+    ctx.violation('structure-differs', f'{mode}/{kind(a)}{sfx}',
                   f'{label} via {via}: node paths differ', witness)
     return
-  ids_a = {id(n) for n, _ in an}
+  if ids_a is None:
+    ids_a = {id(n) for n, _ in an}
   for (x, keys), (y, _) in zip(an, cn):
     cnt['identity_nodes_compared'] += 1
     if type(x) is not type(y):
-      ctx.violation('class-differs', f'{mode}/{kind(x)}',
+      ctx.violation('class-differs', f'{mode}/{kind(x)}{sfx}',
                     f'{label} via {via} at {keys}: {type(x).__name__} vs {type(y).__name__}', witness)
       continue
     if id(y) in ids_a:
-      ctx.violation('shares-node', f'{mode}/{kind(x)}',
+      ctx.violation('shares-node', f'{mode}/{kind(x)}{sfx}',
                     f'{label} via {via}: the clone holds the original {type(x).__name__} at {keys}',
                     witness)
     if isinstance(x, pg.Ref):
@@ -177,25 +465,72 @@ def compare_nodes(ctx, a, c, deep, via, label, witness):
       continue
     for fname, get in FLAGS:
       cnt['flag_nodes_compared'] += 1
+      if getattr(ctx, 'clone_scopes', None):
+        cnt['scope_flag_nodes_compared'] += 1
       if get(x) != get(y):
-        ctx.violation('flag-differs', f'{fname}/{kind(x)}{getattr(ctx, "scope_tag", "")}',
+        ctx.violation('flag-differs',
+                      f'{fname}/{kind(x)}{scope_tag(ctx, fname, x, get(x), top_pos)}',
                       f'{label} via {via} ({mode}) at {keys}: {fname} {get(x)} -> {get(y)}',
                       witness)
     if isinstance(x, (pg.Dict, pg.List)):
       sx, sy = x.value_spec, y.value_spec
       if (sx is None) != (sy is None) or (sx is not None and sx != sy):
-        ctx.violation('spec-differs', f'{mode}/{kind(x)}',
+        ctx.violation('spec-differs', f'{mode}/{kind(x)}{sfx}',
                       f'{label} via {via} at {keys}: value_spec {sx!r:.100} -> {sy!r:.100}', witness)
     # non-symbolic leaves: shared by a shallow clone, copied by a deep clone
     for k, v in TM.children(x):
       if isinstance(v, M.Leaf):
         w = y.sym_getattr(k)
         if deep and w is v:
-          ctx.violation('deep-shares-leaf', f'{kind(x)}',
+          ctx.violation('deep-shares-leaf', f'{kind(x)}{sfx}',
                         f'{label} via {via}: non-symbolic leaf at {keys + [k]} is shared', witness)
-        if not deep and w is not v:
+        if not deep and w is not v and top_pos == 'root':
           ctx.violation('shallow-copies-leaf', f'{kind(x)}',
                         f'{label} via {via}: non-symbolic leaf at {keys + [k]} was copied', witness)
+
+
+def compare_inside(ctx, a, b, via, label, witness, wa):
+  """Deep clone: what the original holds inside tuples / plain containers
+  (symbolic values, plain lists and dicts, leaf objects) must be copied as
+  well; the symbolic values in there are compared like the tree itself."""
+  cnt = ctx.counters
+  wb = walk_all(b)
+  orig = {id(o): (where, holder) for o, where, holder, _, _, _ in wa if is_mutable(o)}
+  done = set()
+  for o, where, holder, inside, _, _ in wb:
+    if not inside or not is_mutable(o):
+      continue
+    cnt['in_tuple_identity_checks'] += 1
+    if id(o) in orig:
+      if isinstance(o, pg.Symbolic):
+        key = ('shares-node', f'deep/{kind(o)}/in-tuple@{holder}')
+      else:
+        what = 'Leaf' if isinstance(o, M.Leaf) else type(o).__name__
+        key = ('deep-shares-leaf', f'{what}/in-tuple@{holder}')
+      if key in done:
+        continue
+      done.add(key)
+      ctx.violation(key[0], key[1],
+                    f'{label} via {via}: the {type(o).__name__} at {where} of the clone (inside '
+                    f'a tuple-valued member of a {holder}) is the very object at '
+                    f'{orig[id(o)][0]} of the original', witness)
+  ta, tb = in_tuple_tops(a), in_tuple_tops(b)
+  if [(w, type(o)) for o, w, _ in ta] != [(w, type(o)) for o, w, _ in tb]:
+    ctx.violation('structure-differs', f'deep/{kind(a)}/in-tuple',
+                  f'{label} via {via}: the symbolic values inside tuple-valued members differ: '
+                  f'{[w for _, w, _ in ta]!r:.200} vs {[w for _, w, _ in tb]!r:.200}', witness)
+    return
+  ids_a = set(orig)
+  for (p, where, _), (q, _, _) in zip(ta, tb):
+    if p is q:
+      continue      # reported above
+    cnt['in_tuple_trees_compared'] += 1
+    compare_nodes(ctx, p, q, True, via, f'{label} [value at {where}]', witness, ids_a=ids_a,
+                  top_pos='in-tuple')
+  for clause, detail in TM.tree_ok([q for q, _, _ in tb]):
+    ctx.violation('clone-tree-' + clause, f'deep/{kind(a)}/in-tuple',
+                  f'{label} via {via}: a symbolic value inside a tuple of the clone: {detail}',
+                  witness)
 
 
 CLONE_SCOPES = [
@@ -213,7 +548,7 @@ def clone_in_scopes(rng, fn, a):
   original."""
   import contextlib  # pylint: disable=g-import-not-at-top
   chosen = []
-  if rng.random() < 0.35:
+  if rng.random() < 0.4:
     for name, cm, vals in rng.sample(CLONE_SCOPES, rng.randint(1, 2)):
       chosen.append((name, cm, rng.choice(vals)))
   blocking = any((n, v) in (('as_sealed', True), ('allow_writable_accessors', False))
@@ -230,7 +565,7 @@ def clone_in_scopes(rng, fn, a):
       # (a functor with an unbound argument is refused with TypeError)
       e.pgverif_blocking_scope = ('allow_partial', False) in [(n, v) for n, _, v in chosen]
       raise
-  return b, '+'.join(f'{n}({v})' for n, _, v in chosen)
+  return b, '+'.join(f'{n}({v})' for n, _, v in chosen), {n: v for n, _, v in chosen}
 
 
 def cases(ctx):
@@ -507,6 +842,26 @@ def state_history(ctx, rng, a, clones, label, witness, model_a):
           'history': trace[:8]}
 
 
+def plain_step(rng, y):
+  """(op name, where, thunk) mutating a non-symbolic mutable object the value
+  holds: a plain list / dict inside a tuple-valued member, or a leaf object."""
+  cands = [(o, where, inside) for o, where, _, inside, _, unordered in walk_all(y)
+           if not unordered and ((inside and type(o) in (list, dict)) or isinstance(o, M.Leaf))]
+  if not cands:
+    return None
+  o, where, inside = rng.choice(cands)
+  pre = 'in-tuple/' if inside else ''
+  if isinstance(o, M.Leaf):
+    def thunk():
+      o.v = (o.v + 1) if isinstance(o.v, int) else 0
+    return pre + 'Leaf.v', where, thunk
+  if type(o) is list:
+    return pre + 'list.append', where, lambda: o.append(77)
+  def setitem():
+    o['zz'] = o.get('zz', 0) + 1 if isinstance(o.get('zz', 0), int) else 0
+  return pre + 'dict.__setitem__', where, setitem
+
+
 def run_case(ctx, i):
   rng = ctx.rng
   c = ctx.counters
@@ -526,13 +881,20 @@ def run_case(ctx, i):
   if primed:
     witness['source'] = primed + ' before cloning'
   state_a = state_obs(a) if ka in ('DNA', 'DNASpec', 'Functor') else None
+  wa = walk_all(a)
+  has_inside = any(inside for _, _, _, inside, _, _ in wa)
+  # typed containers whose spec is their own (root / inside an untyped container)
+  typed_own = any(isinstance(n, (pg.Dict, pg.List)) and n.value_spec is not None and (
+      n.sym_parent is None or (isinstance(n.sym_parent, (pg.Dict, pg.List))
+                               and n.sym_parent.value_spec is None))
+                  for n, _ in TM.nodes_of(a))
   clones = []
   for deep, vias in ((True, DEEP_VIAS), (False, SHALLOW_VIAS)):
     via, fn = rng.choice(vias)
     ctx.label = f'{"deep" if deep else "shallow"}-{via}'
-    scopes = ''
+    scopes, ctx.clone_scopes = '', None
     try:
-      b, scopes = clone_in_scopes(rng, fn, a)
+      b, scopes, ctx.clone_scopes = clone_in_scopes(rng, fn, a)
     except (pg.WritePermissionError, ValueError, TypeError) as e:
       ctx.label = None
       if getattr(e, 'pgverif_blocking_scope', False):
@@ -557,9 +919,6 @@ def run_case(ctx, i):
     if scopes:
       c['clones_inside_scopes'] += 1
       via = f'{via}@{scopes}'
-      ctx.scope_tag = '@scope'
-    else:
-      ctx.scope_tag = ''
     dropped_metadata = ka == 'DNA' and any(k not in model_a.meta_cl for k in a.metadata)
     if dropped_metadata:
       # Documented: metadata that was not set with cloneable=True is not carried.
@@ -589,7 +948,14 @@ def run_case(ctx, i):
       if d is not None:
         ctx.violation('state-differs', f'Functor/{d[0]}', f'{label} via {via} ({mode}): '
                       f'source {d[1]!r:.200} clone {d[2]!r:.200}', witness)
-    compare_nodes(ctx, a, b, deep, via, label, witness)
+    compare_nodes(ctx, a, b, deep, via, label, witness,
+                  ids_a={id(o) for o, _, _, _, _, _ in wa if is_mutable(o)})
+    if deep and has_inside:
+      c['clones_with_tuple_members'] += 1
+      compare_inside(ctx, a, b, via, label, witness, wa)
+    if typed_own:
+      c['clones_of_own_spec_containers'] += 1
+    ctx.clone_scopes = None
     getter_identity(ctx, a, b, deep, via, label, witness)
     for clause, detail in TM.tree_ok([b]):
       ctx.violation('clone-tree-' + clause, f'{mode}/{kind(a)}', f'{label} via {via}: {detail}', witness)
@@ -621,25 +987,45 @@ def run_case(ctx, i):
       ctx.label = None
 
   snap_x, fmt_x, facts_x = observe()
-  forest = [y]
+  # A deep clone owns what is inside its tuple-valued members as well: the
+  # symbolic values in there (roots of trees of their own) take part in the
+  # history, and plain lists / dicts / leaf objects are mutated directly. (A
+  # shallow clone shares those leaf values; nothing is claimed about them.)
+  deep_hist = mode == 'deep'
+  forest = [y] + ([o for o, _, _ in in_tuple_tops(y)] if deep_hist else [])
   trace, changed = [], 0
   scope_p = {'notify_off': 0.08, 'writable': 0.5, 'unsealed': 1.0}
   n_steps = rng.randint(ctx.params['steps'] // 2, ctx.params['steps'])
+  before = [(js(r), safe_format(r)) for r in forest]
   for _ in range(n_steps):
-    step = H.gen_step(rng, forest, effects=('mutate',), p_scope=scope_p,
-                      value_source_kwargs=dict(p_alias=0.15, typed=True,
-                                               allow_root_alias=False),
-                      node_filter=lambda t: t[0] == 0)
-    if step is None:
-      break
-    before = js(forest[0])
-    ctx.label = step['op']
-    status, _ = O.execute(forest, step)
-    ctx.label = None
-    trace.append(O.show_step(step))
+    plain = None
+    if deep_hist and rng.random() < 0.2:
+      plain = plain_step(rng, y)
+    if plain is not None:
+      step = {'op': plain[0]}
+      plain[2]()
+      trace.append(f'{plain[0]} at {plain[1]}')
+      c['plain_member_mutations'] += 1
+    else:
+      only_inside = len(forest) > 1 and rng.random() < 0.35
+      step = H.gen_step(rng, forest, effects=('mutate',), p_scope=scope_p,
+                        value_source_kwargs=dict(p_alias=0.15, typed=True,
+                                                 allow_root_alias=False),
+                        node_filter=(lambda t: t[0] > 0) if only_inside else None)
+      if step is None:
+        break
+      ctx.label = step['op']
+      status, _ = O.execute(forest, step)
+      ctx.label = None
+      trace.append(O.show_step(step))
+      if step['at'][0] > 0:
+        step = dict(step, op=step['op'] + '@in-tuple')
+        c['in_tuple_node_mutations'] += 1
     c['interference_checks'] += 1
-    if js(forest[0]) != before:
+    after = [(js(r), safe_format(r)) for r in forest]
+    if after != before:
       changed += 1
+    before = after
     now, fmt_now, facts_now = observe()
     head = (f'{label} cloned via {via} ({mode}{", source " + primed if primed else ""}); '
             f'mutating the {"clone" if mutate_clone else "original"} with {trace[-1]} changed ')
